@@ -184,6 +184,11 @@ class AnfTransformer(transformer.Base):
     if isinstance(node, ast.keyword):
       node.value = self._ensure_node_in_anf(parent, field, node.value)
       return node
+    if isinstance(node, ast.Tuple) and any(
+        isinstance(e, ast.Slice) for e in node.elts):
+      # An extended slice, a[i:j, k], is a tuple that holds slices: like a slice
+      # it can only stand inside the subscript.
+      return self._ensure_fields_in_anf(node, parent, field)
     if isinstance(node, (ast.Starred, ast.withitem, ast.Slice)):
       # These nodes aren't really extractable in their own right, but their
       # subnodes might be.  Propagate the parent and field name to the child
